@@ -91,6 +91,37 @@ func run(c hx.Config) error {
 					}
 				}
 			}
+			// D: ordered pairs of methods: m1 on the fresh base, an unrelated sibling of the result, then m2 on the
+			// result — the histories in which type-local reference state that m1 put into its result (key sets such as
+			// PartialExceptions, shapes, option lists) is handed on to, and written by, m2. Quick tier: every pair of
+			// methods that take a key list / map / shape argument (keyed variants), and a random sample of the other
+			// pairs; thorough tier: every ordered pair.
+			if rep == 0 {
+				keyed := storex.KeyedMethods(probe, methods)
+				for _, m1 := range methods {
+					for _, m2 := range methods {
+						both := keyed[m1] && keyed[m2]
+						if !both && !c.Thorough() && rng.Intn(40) != 0 {
+							continue
+						}
+						for v1 := 0; v1 < 2; v1++ {
+							for v2 := 0; v2 < 2; v2++ {
+								if !both && (v1 != v2) {
+									continue
+								}
+								h := storex.NewHist(b, true)
+								if !h.Step(0, m1, v1, o) {
+									continue
+								}
+								h.Step(1, hx.Pick(rng, methods), rng.Intn(3), o) // earlier sibling of what m2 derives
+								if h.Step(1, m2, v2, o) {
+									emit(h, o, "D")
+								}
+							}
+						}
+					}
+				}
+			}
 			// C: long check chains crossing capacities, siblings at every boundary
 			for _, m := range methods {
 				h := storex.NewHist(b, true)
